@@ -96,11 +96,28 @@ class Collector:
                      f'<DATA-OBJECT-PROP {head}{compu_xml(d["compu"], d["dct"]["bt"], d["pt"])}'
                      f'{dct_xml(d["dct"])}<PHYSICAL-TYPE BASE-DATA-TYPE="{d["pt"]}"/></DATA-OBJECT-PROP>')
         elif k == "dtc":
-            dt = "".join(f'<DTC ID="{d["id"]}.{n}"><SHORT-NAME>{n}</SHORT-NAME><TROUBLE-CODE>{c}</TROUBLE-CODE>'
-                         f'<TEXT>{n}</TEXT></DTC>' for n, c in d["dtcs"])
+            def dtcs_xml(oid, dtcs):
+                return "".join(f'<DTC ID="{oid}.{n}"><SHORT-NAME>{n}</SHORT-NAME><TROUBLE-CODE>{c}</TROUBLE-CODE>'
+                               f'<TEXT>{n}</TEXT></DTC>' for n, c in dtcs)
+            ln = d.get("linked")
+            own = d["dtcs"] if ln is None else [x for x in d["dtcs"] if x[0] in ln["own"]]
+            lx = ""
+            if ln is not None:
+                # d["dtcs"] is the effective list: the own DTCs plus those inherited from the linked DTC-DOP
+                inh = [x for x in d["dtcs"] if x[0] not in ln["own"]]
+                ni = "".join(f'<NOT-INHERITED-DTC-SNREF SHORT-NAME="{n}"/>' for n, _ in ln["hidden"])
+                ni = f"<NOT-INHERITED-DTC-SNREFS>{ni}</NOT-INHERITED-DTC-SNREFS>" if ni else ""
+                lx = (f'<LINKED-DTC-DOPS><LINKED-DTC-DOP>{ni}<DTC-DOP-REF ID-REF="{ln["id"]}"/></LINKED-DTC-DOP>'
+                      f'</LINKED-DTC-DOPS>')
+                lhead = f'ID="{ln["id"]}"><SHORT-NAME>{ln["id"]}</SHORT-NAME>'
+                self.add("DTC-DOPS", ln["id"],
+                         f'<DTC-DOP {lhead}{dct_xml(d["dct"])}<PHYSICAL-TYPE BASE-DATA-TYPE="A_UINT32"/>'
+                         f'<COMPU-METHOD><CATEGORY>IDENTICAL</CATEGORY></COMPU-METHOD>'
+                         f'<DTCS>{dtcs_xml(ln["id"], ln["hidden"] + inh + ln["clash"])}</DTCS></DTC-DOP>')
             self.add("DTC-DOPS", d["id"],
                      f'<DTC-DOP {head}{dct_xml(d["dct"])}<PHYSICAL-TYPE BASE-DATA-TYPE="A_UINT32"/>'
-                     f'<COMPU-METHOD><CATEGORY>IDENTICAL</CATEGORY></COMPU-METHOD><DTCS>{dt}</DTCS></DTC-DOP>')
+                     f'<COMPU-METHOD><CATEGORY>IDENTICAL</CATEGORY></COMPU-METHOD><DTCS>{dtcs_xml(d["id"], own)}</DTCS>'
+                     f'{lx}</DTC-DOP>')
         elif k == "struct":
             bs = f'<BYTE-SIZE>{d["bs"]}</BYTE-SIZE>' if d.get("bs") is not None else ""
             px = self.params(d["params"])
